@@ -56,6 +56,9 @@ class Subject:
   def supports(self, kind):
     return True
 
+  def wants(self, h):
+    return True
+
   def final_check(self, it, full):
     return None
 
@@ -63,10 +66,18 @@ class Subject:
 _BAD = []      # unreadable positions of the history being replayed (set by _replay)
 
 
+MULTISEQ = [False]     # the source is merged from two sub-sequences (an inner boundary in the middle)
+
+
 def _source(n, kind, chain):
   from ml_metrics._src.chainables import io
   data = list(range(n))
   if kind == 'seq':
+    if MULTISEQ[0] and not _BAD:
+      ds = io.SequenceDataSource.from_sequences([data[:n // 2], data[n // 2:]])
+      for c in chain:
+        ds = ds.shard(c['i'], c['k'])
+      return ds
     if _BAD:
       from checks import c09
       ds = io.SequenceDataSource(c09.BadSeq(n, _BAD), ignore_error=True)     # unreadable positions are skipped
@@ -84,6 +95,24 @@ class Raw(Subject):
 
   def build(self, n, kind, chain):
     return iter(_source(n, kind, chain))
+
+
+class RawMultiSeq(Subject):
+  """A source merged from two sub-sequences: shards may end exactly on the inner boundary."""
+  name = 'raw-multiseq'
+
+  def supports(self, kind):
+    return kind == 'seq'
+
+  def wants(self, h):
+    return not h.get('bad')
+
+  def build(self, n, kind, chain):
+    MULTISEQ[0] = True
+    try:
+      return iter(_source(n, kind, chain))
+    finally:
+      MULTISEQ[0] = False
 
 
 def _norm_agg(r):
@@ -193,6 +222,24 @@ class Chain2AggFirst(Chain2):
   agg_offset = 100
 
 
+class Chain3AggFirst(Runner):
+  """Three named stages, the aggregate in the first: its state has to survive a restore of the whole chain."""
+  name = 'chain3a'
+  offset = 102
+  agg_offset = 100
+
+  def wants(self, h):
+    return any(o['op'] == 'restore' for o in h['ops']) and not h.get('bad')
+
+  def build(self, n, kind, chain):
+    from ml_metrics._src.chainables import transform
+    from harness import lib
+    a = transform.TreeTransform.new(name='a').data_source(_source(n, kind, chain)).apply(fn=lib.add100).aggregate(fn=lib.Collect())
+    b = transform.TreeTransform.new(name='b').apply(fn=lib.inc)
+    c = transform.TreeTransform.new(name='c').apply(fn=lib.inc)
+    return a.chain(b).chain(c).make().iterate()
+
+
 class RunnerSliced(Runner):
   """A sliced aggregate: the checkpoint carries one aggregate state per slice value (MetricKey(metric, SliceKey))."""
   name = 'runner-sliced'
@@ -232,7 +279,7 @@ class RunnerSliced(Runner):
     return None
 
 
-SUBJECTS = [Raw(), Runner(), RunnerInPlace(), RunnerMean(), Chain2(), Chain2AggFirst(), RunnerSliced()]
+SUBJECTS = [Raw(), RawMultiSeq(), Runner(), RunnerInPlace(), RunnerMean(), Chain2(), Chain2AggFirst(), Chain3AggFirst(), RunnerSliced()]
 
 
 def _replay(chk, h, subj):
@@ -309,6 +356,9 @@ def _replay_subject(i, hs):
   col = _Collector()
   okc = 0
   for h in hs:
+    if not SUBJECTS[i].supports(h['kind']) or not SUBJECTS[i].wants(h):
+      okc += 1
+      continue
     if _replay(col, h, SUBJECTS[i]):
       okc += 1
   return col.viols, okc
